@@ -705,3 +705,11 @@ def same_decimal(a, b, nd):
             qb = bv if k == 0 else bv / z3.IntVal(10 ** k)
             conds.append(qa % 10 == qb % 10)
         return SymbolicBool(z3.And(*conds))
+
+
+def untraced(fn, *a, **k):
+    """run fn on concrete arguments outside CrossHair's tracer (plain CPython speed)"""
+    if not SYMBOLIC:
+        return fn(*a, **k)
+    with NoTracing():
+        return fn(*a, **k)
